@@ -42,7 +42,20 @@ def wfExpr : Expr → Bool
   | .call fn args => rawC (b fn ++ b "(") && wfExprs args
   | .orderBy e _ => wfExpr e
   | .sub s => wfSel s
-  | .setop k ss => rawC (b " " ++ b k ++ b " ") && wfSels ss
+  | .callT fn args => rawC (b fn ++ b "(") && wfExprs args
+  | .bitSet cs a => wfShiftT 0 cs && rawC (b ")" ++ (if a.isEmpty then [] else b " as " ++ b a))
+  | .setOp op ss => rawC (b " " ++ b op ++ b " ") && wfSels ss
+  | .arrayJoin src arr => wfExpr src && wfExpr arr
+  | .anyIfNum _ => true
+  | .distinct e => wfExpr e
+  | .mulOp x y => wfExpr x && wfExpr y
+  | .divOp x y => wfExpr x && wfExpr y
+  | .mapFilterKeys _ _ m => wfExpr m
+  | .mapAt m _ => wfExpr m
+  | .tupleAt name i => rawE (b name ++ b "." ++ natDigits i)
+  | .topkSlice isTop hasLabels k => rawE (topkText isTop hasLabels k)
+  | .arrayJoinFrom src arr => wfExpr src && wfExpr arr
+  | .fixedLit units scale => rawE (b (fixedText units scale))
 def wfSels : List Sel → Bool
   | [] => true
   | s :: ss => wfSel s && wfSels ss
@@ -52,6 +65,9 @@ def wfExprs : List Expr → Bool
 def wfShift (i : Nat) : List Expr → Bool
   | [] => true
   | o :: os => wfExpr o && rawC (b "), " ++ natDigits i ++ b ")") && wfShift (i + 1) os
+def wfShiftT (i : Nat) : List Expr → Bool
+  | [] => true
+  | o :: os => wfExpr o && rawC (b ")," ++ natDigits i ++ b ")") && wfShiftT (i + 1) os
 def wfWiths : List (Alias × Sel) → Bool
   | [] => true
   | (a, s) :: ws => rawC (b a.text ++ b " as (") && wfSelBody s && wfWiths ws
